@@ -111,6 +111,8 @@ def gen(prop, stream, tier, avoid):
                 continue
             e = rng.weighted(edit_w)
             op = {"op": e, "obj": o, "seed": rng.randrange(1 << 30), "dir": rng.randrange(3)}
+            if e == "set_tessellator":
+                op["plug_back"] = rng.chance(0.5)
             if e == "set_knots":
                 op["unclamped"] = rng.pick([False, False, False, True, "outer", "outer"])
             if e == "set_pts":
@@ -151,6 +153,19 @@ def gen(prop, stream, tier, avoid):
                  {"op": "read", "obj": o_, "views": ["evalpts"], "param": prm},
                  {"op": "set_knots", "obj": o_, "seed": kn.randrange(1 << 30), "dir": d_, "unclamped": "outer"},
                  {"op": "read", "obj": o_, "views": ["evalpts", kn.pick(["bbox", "vertices", "evaluate_single"])], "param": prm}]
+        at = kn.randint(0, len(ops))
+        ops = ops[:at] + motif + ops[at:]
+    surf_ids = [j for j, sp in enumerate(objs) if sp["kind"] == "surface"]
+    if surf_ids and kn.chance(0.12):
+        # motif: the mesh is read, the tessellation component is exchanged, the surface is edited, the EARLIER component is plugged
+        # back in (it still holds the mesh of its time), the mesh is read again
+        o_ = kn.pick(surf_ids)
+        prm = [0.5, 0.5, 0.5]
+        motif = [{"op": "read", "obj": o_, "views": ["vertices"], "param": prm},
+                 {"op": "set_tessellator", "obj": o_, "seed": kn.randrange(1 << 30), "dir": 0, "plug_back": False},
+                 {"op": "translate", "obj": o_, "seed": kn.randrange(1 << 30), "dir": 0, "vec": [2.0, -1.0, 0.5]},
+                 {"op": "set_tessellator", "obj": o_, "seed": kn.randrange(1 << 30), "dir": 0, "plug_back": True},
+                 {"op": "read", "obj": o_, "views": ["vertices", "faces"], "param": prm}]
         at = kn.randint(0, len(ops))
         ops = ops[:at] + motif + ops[at:]
     return {"knobs": knobs, "objects": objs, "containers": conts, "ops": ops}
@@ -487,7 +502,13 @@ def _apply_edit(world, lv, op, rng):
     if e == "set_tessellator":
         if nd != 2:
             return "skip"
-        obj.tessellator = g.tessellate.TriangularTessellate()     # same algorithm as a fresh surface uses, new (empty) component
+        if op.get("plug_back") and getattr(lv, "old_tessellators", None):
+            # the caller plugs a component back in that the surface used EARLIER (and that still holds the mesh of that time)
+            obj.tessellator = lv.old_tessellators[-1]
+            world.ctx.probe("earlier_tessellator_plugged_back")
+        else:
+            lv.old_tessellators = getattr(lv, "old_tessellators", []) + [obj.tessellator]
+            obj.tessellator = g.tessellate.TriangularTessellate()     # same algorithm as a fresh surface uses, new (empty) component
         return "ok"
     if e == "reverse":
         if nd != 1:
